@@ -2,6 +2,7 @@ package hist
 
 import (
 	"fmt"
+	"runtime"
 
 	"verifsim/alpha"
 	"verifsim/prng"
@@ -234,6 +235,9 @@ func Profile(prop string, rng *prng.Rand, idx uint64) *GenCfg {
 	default:
 		panic("no profile for " + prop)
 	}
+	if idx%50 == 0 && (prop == "C01" || prop == "C05" || prop == "C12" || prop == "C14" || prop == "C15" || prop == "C19") {
+		c.ColdFirst = true
+	}
 	switch prop {
 	case "C01", "C11", "C12", "C15", "C19":
 		// big pools: term lists whose points and scalars are (nearly) all distinct -
@@ -327,7 +331,7 @@ func finishResult(r *Run, res *RunResult, base uint64, env *Env) {
 	}
 	if res.Violation != nil || env.KeepTrace {
 		res.Trace = &Trace{Kind: "hist", Prop: r.Prop, Seed: base, RunIdx: res.Idx, NP: len(r.W.P), NS: len(r.W.S), NE: len(r.W.E),
-			Opts: r.Opts, Calls: r.Calls, Violation: res.Violation, Build: env.Build}
+			Opts: r.Opts, Calls: r.Calls, Violation: res.Violation, Build: env.Build, Procs: runtime.GOMAXPROCS(0)}
 	}
 }
 
